@@ -319,15 +319,16 @@ impl Model for DeferModel {
         while let Ok(ev) = sys.obs.try_recv() {
             if let ToPeerEvent::NlriChange(c) = ev {
                 let key = (fkey(&c.family), format!("{}", c.net));
+                // a withdrawal is an advertisement too: nothing about a deferred family reaches the neighbours
+                if sys.deferred.contains(&key.0) && !released.contains(&key.0) {
+                    cur.push((
+                        format!("C11/advertised-while-deferred/{kind}{}", if c.current_paths.is_empty() { "/withdrawal" } else { "" }),
+                        format!("{}: {} {} ({}) was handed to the neighbours although family {} is still deferred (pending {:?})", op_name(o), fname(&c.family), c.net, if c.current_paths.is_empty() { "withdrawal" } else { "announcement" }, fname(&c.family), sys.pending),
+                    ));
+                }
                 if c.current_paths.is_empty() {
                     sys.ann.remove(&key);
                     continue;
-                }
-                if sys.deferred.contains(&key.0) && !released.contains(&key.0) {
-                    cur.push((
-                        format!("C11/advertised-while-deferred/{kind}"),
-                        format!("{}: {} {} was handed to the neighbours although family {} is still deferred (pending {:?})", op_name(o), fname(&c.family), c.net, fname(&c.family), sys.pending),
-                    ));
                 }
                 let ct = content(&c.current_paths);
                 // a route op (a new UPDATE / API call) legitimately re-announces; only the
